@@ -39,7 +39,8 @@ fn gen_def(rng: &mut Rng, cid: usize, stats: &mut Stats) -> String {
 impl Area for C16Area {
     fn corpus(&self) -> Vec<Vec<String>> {
         let s = |x: &[&str]| x.iter().map(|l| l.to_string()).collect::<Vec<String>>();
-        vec![s(&["c16 new prefix=70 labels=636c7573746572:65750a,6161:31", "c16 def c0 kind=countervec name=6d5f63 help=68 consts=6b:31 vars=6d6574686f64 children=676574;706f7374", "c16 def c1 kind=histogram name=785f68 help=68 consts=- vars=- obs=3fd0000000000000,4008000000000000", "c16 register c0", "c16 register c1", "c16 gather"])]
+        vec![s(&["c16 new prefix=70 labels=636c7573746572:65750a,6161:31", "c16 def c0 kind=countervec name=6d5f63 help=68 consts=6b:31 vars=6d6574686f64 children=676574;706f7374", "c16 def c1 kind=histogram name=785f68 help=68 consts=- vars=- obs=3fd0000000000000,4008000000000000", "c16 register c0", "c16 register c1", "c16 gather"]),
+             s(&["c16 new prefix=none labels=none", "c16 raw name=726177 help=none type=none label=yes lname=6c lval=none cv=3ff0000000000000 gv=none ts=none", "c16 raw name=726177 help=68 type=gauge label=no lname=none lval=none cv=none gv=none ts=5", "c16 raw name=none help=68 type=counter label=yes lname=none lval=76 cv=none gv=4008000000000000 ts=none"])]
     }
     fn gen(&self, rng: &mut Rng, _thorough: bool, stats: &mut Stats) -> Vec<String> {
         let prefix = if rng.chance(65) { "none".to_string() } else { hex_list(&[rng.pick(&["p", "ns:x"])]) };
@@ -49,6 +50,16 @@ impl Area for C16Area {
         for i in 0..ndef { lines.push(gen_def(rng, i, stats)); }
         for _ in 0..rng.range(2, 10) { let c = rng.below(ndef); match rng.below(10) { 0..=6 => lines.push(format!("c16 register c{}", c)), 7 => lines.push(format!("c16 unregister c{}", c)), _ => lines.push("c16 gather".into()) } }
         lines.push("c16 gather".into());
+        // hand-built families with unset fields (defaults of the two data models)
+        for _ in 0..rng.below(3) {
+            let o = |rng: &mut Rng, pool: &[&str]| -> String { if rng.chance(35) { "none".to_string() } else { hex_list(&[rng.pick(pool)]) } };
+            let name = if rng.chance(15) { "none".to_string() } else { hex_list(&[rng.pick(&["raw", "r:x"])]) };
+            let ty = *rng.pick(&["counter", "gauge", "none", "none"]);
+            let (cv, gv) = match rng.below(3) { 0 => (f64_hex(*rng.pick(&[1.0, 2.5, 0.0])), "none".to_string()), 1 => ("none".to_string(), f64_hex(*rng.pick(&[3.0, -1.0]))), _ => ("none".to_string(), "none".to_string()) };
+            let label = rng.chance(50);
+            stats.hit("raw-family");
+            lines.push(format!("c16 raw name={} help={} type={} label={} lname={} lval={} cv={} gv={} ts={}", name, o(rng, &["h", "é\n"]), ty, if label { "yes" } else { "no" }, o(rng, &["l", "k"]), o(rng, &["v", "\"q\""]), cv, gv, rng.pick(&["none", "none", "5", "-7"])));
+        }
         lines
     }
     fn exec(&self, lines: &[String], stats: &mut Stats) -> ExecOut {
